@@ -429,6 +429,7 @@ def check_bytes(data, expected=None, fmt=None):
                 os.makedirs(seams.SCRATCH, exist_ok=True)
                 with open(path, 'wb') as f:
                     f.write(data)
+                seams.pin_times(path)
                 by_path = bin_file_type.binary_file_type_from_path(path)
             except Exception as err:  # noqa
                 by_path = 'raised %s' % type(err).__name__
